@@ -201,12 +201,18 @@ def kvn2dict(string):
         key = key.strip()
         value = value.strip()
 
-        if "[" in value:
-            # There is a unit field
-            value, sep, unit = value.partition("[")
-            attrib = {"units": unit.rstrip("]")}
-        else:
-            attrib = {}
+        attrib = {}
+        if value.endswith("]") and "[" in value:
+            number, _, unit = value[:-1].rpartition("[")
+            try:
+                float(number)
+            except ValueError:
+                # free text with brackets (e.g. OBJECT_NAME = GOES 9 [P])
+                pass
+            else:
+                # There is a unit field
+                value = number.strip()
+                attrib = {"units": unit}
 
         if key.startswith("MAN_"):
             if key == "MAN_EPOCH_IGNITION":
